@@ -201,6 +201,10 @@ def run(ctx):
         viol.append({"kf": "colon-value", "what": "action value starting with ':' is not treated as data (%s)" % type(e).__name__})
     impl, ys, model = corr_parse.eval_both(texts)
     diffs = [{"suite": "parse", "input_hex": t.hex(), "input": t.decode("latin-1")[:300], "impl": a[:300], "model": m[:300]} for t, a, m in zip(texts, impl, model) if a != m]
+    # the construction logic itself: real `__create_filter` against its Lean model (the model the theorem of Props/C06 is about)
+    import corr_factory
+    fdiffs, fn, fclasses = corr_factory.run(rng("c06-factory"), 2500 if ctx.tier == "quick" else 40000)
+    diffs += fdiffs
     seen, uv = set(), []
     for v in viol:
         k = v["what"][:60]
@@ -208,8 +212,8 @@ def run(ctx):
             seen.add(k)
             uv.append(v)
     fresh, known = split_known("C06", uv, lambda f, v: f.get("match", {}).get("kind") == v.get("kf"))
-    return {"evaluations": evals, "distinct_nontrivial": nontriv, "rule": RULE, "samples": samples,
-            "suites": {"factory": {"sets": n}}, "diffs": diffs, "violations": fresh, "known": known}
+    return {"evaluations": evals + fn, "distinct_nontrivial": nontriv, "rule": RULE, "samples": samples,
+            "suites": {"factory": {"sets": n}, "factory-build": {"descriptions": fn, "outcomes": fclasses}}, "diffs": diffs, "violations": fresh, "known": known}
 
 
 def replay(ctx, payload):
